@@ -3,7 +3,9 @@ namespace Driver.Tls
 open Selium.Tls
 
 def ident (s : String) : Identity :=
-  if s = "trusted" then .signedBy 0 "localhost" else if s = "otherca" then .signedBy 1 "localhost"
+  -- `bundle`: the trusted client certificate with another CA's certificate appended to the identity file: who
+  -- signed the leaf is unchanged, and the trust anchors are the configured ones only
+  if s = "trusted" || s = "bundle" then .signedBy 0 "localhost" else if s = "otherca" then .signedBy 1 "localhost"
   else if s = "selfsigned" then .selfSigned else .absent
 
 /-- `tls <client identity> <server identity>`: CA 0 is the one both sides are configured with -/
